@@ -111,15 +111,16 @@ func (e *Engine) verifyFunc(fn *ssa.Function, fc *FuncContract, safety bool) (re
 	}
 	tcp := ex.contractCtx(final, ex.entry)
 	bindResults(tcp, results, fn.Signature, ex)
+	// vacuity probe: the exit must be reachable under the assumptions (before the postconditions are assumed: a
+	// postcondition that fails is then assumed for the later ones and may contradict the facts)
+	o := vc.oblige("cover-exit", "vacuity probe: 'false' at the normal exit must NOT be provable", "", final.pc, "false")
+	o.Cover = true
 	for i, en := range fc.Ensures {
 		g := ex.trClause(tcp, en)
 		vc.oblige("post", fmt.Sprintf("postcondition %d: %s", i+1, en.Src), fmt.Sprintf("%s:%d", relFile(en.File), en.Line), final.pc, g)
 		// later postconditions may use earlier ones (each is proved on its own, or reported)
 		vc.assume(final.pc, g)
 	}
-	// vacuity probe: the exit must be reachable under the assumptions
-	o := vc.oblige("cover-exit", "vacuity probe: 'false' at the normal exit must NOT be provable", "", final.pc, "false")
-	o.Cover = true
 	return res
 }
 
